@@ -52,11 +52,20 @@ ATTR = {'signed': ('B', 's'), 'n_word': ('I', 'w'), 'n_int': ('I', 'i'), 'n_frac
 class PE:
     """partial evaluator for one straight-line slice; `lets` collects (name, type, lean term) in source order."""
 
-    def __init__(self, env, consts):
+    def __init__(self, env, consts, funcs=None, shared=None, depth=0):
         self.env = dict(env)
         self.consts = consts
-        self.lets = []
-        self.n = 0
+        self.funcs = funcs or {}
+        # `lets` and the name counter are shared between the forks of a symbolic branch and inlined helper calls
+        self.shared = shared if shared is not None else {'lets': [], 'n': 0}
+        self.depth = depth
+
+    @property
+    def lets(self):
+        return self.shared['lets']
+
+    def fork(self, env=None):
+        return PE(self.env if env is None else env, self.consts, self.funcs, self.shared, self.depth + 1)
 
     # -------------------------------------------------------------------------------- expressions
     def ev(self, e):
@@ -69,6 +78,8 @@ class PE:
                 return self.env[e.id]
             if e.id in self.consts:
                 return C(self.consts[e.id])
+            if e.id in ('max', 'min', 'any', 'all'):
+                return ('F', e.id)           # a builtin used as a value (`choose = max if ... else min`)
             raise Untranslatable('unknown name %s' % e.id)
         if isinstance(e, ast.Attribute):
             if isinstance(e.value, ast.Name) and e.value.id == 'np':
@@ -165,11 +176,11 @@ class PE:
             return ('T', [self.ev(x) for x in e.elts])
         if isinstance(e, ast.List):
             return ('L', [self.ev(x) for x in e.elts])
-        if isinstance(e, ast.ListComp):
+        if isinstance(e, (ast.ListComp, ast.GeneratorExp)):
             if len(e.generators) != 1 or e.generators[0].ifs or not isinstance(e.generators[0].target, ast.Name):
                 raise Untranslatable('list comprehension shape')
             it = self.ev(e.generators[0].iter)
-            if it[0] != 'L':
+            if it[0] not in ('L', 'T'):
                 raise Untranslatable('comprehension over a non-list')
             var = e.generators[0].target.id
             saved = self.env.get(var)
@@ -202,6 +213,8 @@ class PE:
         name = None
         if isinstance(fn, ast.Name):
             name = fn.id
+            if name in self.env and self.env[name][0] == 'F':
+                name = self.env[name][1]
         elif isinstance(fn, ast.Attribute) and isinstance(fn.value, ast.Name) and fn.value.id == 'np':
             name = 'np.' + fn.attr
         if name is None or e.keywords and name not in ('np.diagonal',):
@@ -221,11 +234,24 @@ class PE:
             if v[0] == 'B' or (is_const(v) and isinstance(v[1], bool)):
                 return v
             raise Untranslatable('bool() of a non-boolean')
-        if name == 'np.any':
+        if name in ('np.any', 'any', 'np.all', 'all'):
             v = args[0]
-            if v[0] != 'L':
-                raise Untranslatable('np.any of a non-list')
-            return ('B', '(' + ' || '.join(to_lean_bool(x) for x in v[1]) + ')')
+            if v[0] not in ('L', 'T') or not v[1]:
+                raise Untranslatable('%s of a non-list' % name)
+            return ('B', '(' + (' || ' if name.endswith('any') else ' && ').join(to_lean_bool(x) for x in v[1]) + ')')
+        if name in self.funcs and not e.keywords:
+            # a module-level helper with a translatable body is inlined (its assignments become `let`s of the caller)
+            if self.depth > 6:
+                raise Untranslatable('helper calls nested too deep')
+            node = self.funcs[name]
+            params = [p.arg for p in node.args.args]
+            if len(params) != len(args) or node.args.vararg or node.args.kwarg:
+                raise Untranslatable('call of %s with another signature' % name)
+            sub = self.fork(dict(zip(params, args)))
+            r = sub.run(node.body)
+            if r is None:
+                raise Untranslatable('%s does not return a value' % name)
+            return r
         if name == 'int':
             v = args[0]
             if v[0] == 'CL':                          # int(np.ceil(np.log2(k)))
@@ -244,7 +270,7 @@ class PE:
                 raise Untranslatable('ceil of something else than log2')
             return ('CL', args[0][1])
         if name in ('max', 'min'):
-            if len(args) == 1 and args[0][0] == 'L':
+            if len(args) == 1 and args[0][0] in ('L', 'T'):
                 args = args[0][1]
             if len(args) < 2:
                 raise Untranslatable('%s of one argument' % name)
@@ -258,11 +284,19 @@ class PE:
     def bind(self, name, v):
         """record `name = v`; symbolic scalars become a Lean `let` so that the generated text follows the source."""
         if v[0] in ('B', 'I'):
-            self.n += 1
-            ln = '%s_%d' % (name.strip('_') or 'v', self.n)
+            self.shared['n'] += 1
+            ln = '%s_%d' % (name.strip('_') or 'v', self.shared['n'])
             self.lets.append((ln, 'Bool' if v[0] == 'B' else 'Int', v[1]))
             v = (v[0], ln)
         self.env[name] = v
+
+    def poison(self, node):
+        """every name stored anywhere inside `node` becomes unknown (a later use is then refused, never guessed)."""
+        for n in ast.walk(node):
+            if isinstance(n, ast.Name) and isinstance(n.ctx, ast.Store):
+                self.env.pop(n.id, None)
+            elif isinstance(n, (ast.FunctionDef, ast.ClassDef)):
+                self.env.pop(n.name, None)
 
     def assign(self, st):
         if len(st.targets) != 1:
@@ -279,22 +313,87 @@ class PE:
         else:
             raise Untranslatable('assignment target')
 
-    def run(self, stmts, only=None):
-        """execute statements; with `only`, assignments to other names and non-assignments are skipped."""
-        for st in stmts:
+    def run(self, stmts, only=None, lenient=False):
+        """execute statements; with `only`, assignments to other names and non-assignments are skipped; with `lenient`,
+        nested definitions, `isinstance` guards and assignments that do not translate are skipped (their targets become unknown).
+        Returns the value of the `return` that is reached (merged over symbolic branches), or None."""
+        stmts = list(stmts)
+        for i, st in enumerate(stmts):
             if isinstance(st, ast.Assign):
                 names = [t.id for tg in st.targets for t in (tg.elts if isinstance(tg, ast.Tuple) else [tg]) if isinstance(t, ast.Name)]
                 if only is not None and not (names and all(n in only for n in names)):
                     continue
-                self.assign(st)
+                if lenient:
+                    try:
+                        self.assign(st)
+                    except Untranslatable:
+                        for n in names:
+                            self.env.pop(n, None)
+                else:
+                    self.assign(st)
             elif only is not None:
+                continue
+            elif lenient and isinstance(st, ast.FunctionDef):
+                self.env.pop(st.name, None)
+                continue
+            elif lenient and isinstance(st, ast.AugAssign) and isinstance(st.target, ast.Name):
+                try:
+                    self.bind(st.target.id, self.ev(ast.BinOp(left=ast.Name(id=st.target.id, ctx=ast.Load()), op=st.op, right=st.value)))
+                except Untranslatable:
+                    self.env.pop(st.target.id, None)
+            elif lenient and isinstance(st, ast.If):
+                try:
+                    t = self.ev(st.test)
+                except Untranslatable:
+                    # a guard that is not about sizes (`if not isinstance(x, Fxp): x = Fxp(x)`, the complex-kernel selection):
+                    # skipped, and every name it assigns becomes unknown — except an operand that is merely wrapped into an Fxp
+                    wrap = (len(st.body) == 1 and not st.orelse and isinstance(st.body[0], ast.Assign)
+                            and isinstance(st.body[0].value, ast.Call) and isinstance(st.body[0].value.func, ast.Name)
+                            and st.body[0].value.func.id == 'Fxp' and len(st.body[0].value.args) == 1
+                            and isinstance(st.body[0].value.args[0], ast.Name) and len(st.body[0].targets) == 1
+                            and isinstance(st.body[0].targets[0], ast.Name)
+                            and st.body[0].targets[0].id == st.body[0].value.args[0].id)
+                    if not wrap:
+                        self.poison(st)
+                    continue
+                if is_const(t):
+                    r = self.run(st.body if t[1] else st.orelse, lenient=True)
+                    if r is not None:
+                        return r
+                    continue
+                rest = stmts[i + 1:]
+                a = self.fork(); ra = a.run(list(st.body) + rest, lenient=True)
+                b = self.fork(); rb = b.run(list(st.orelse) + rest, lenient=True)
+                if ra is None or rb is None:
+                    raise Untranslatable('a symbolic branch without a result on both sides (line %d)' % st.lineno)
+                return self.ite(t, ra, rb)
+            elif lenient and isinstance(st, ast.Return):
+                # the wrapper call: the operator's rule is its `optimal_size=` argument
+                if isinstance(st.value, ast.Call):
+                    for kw in st.value.keywords:
+                        if kw.arg == 'optimal_size':
+                            return self.ev(kw.value)
+                raise Untranslatable('no optimal_size= in the final call')
+            elif lenient:
+                self.poison(st)
                 continue
             elif isinstance(st, ast.If):
                 t = self.ev(st.test)
-                if not is_const(t):
-                    raise Untranslatable('branch on a symbolic test (line %d)' % st.lineno)
-                self.run(st.body if t[1] else st.orelse)
+                if is_const(t):
+                    r = self.run(st.body if t[1] else st.orelse)
+                    if r is not None:
+                        return r
+                    continue
+                # symbolic test: both continuations are evaluated (they are pure) and merged
+                rest = stmts[i + 1:]
+                a = self.fork(); ra = a.run(list(st.body) + rest)
+                b = self.fork(); rb = b.run(list(st.orelse) + rest)
+                if ra is None or rb is None:
+                    raise Untranslatable('a symbolic branch without a return on both sides (line %d)' % st.lineno)
+                return self.ite(t, ra, rb)
             elif isinstance(st, ast.Return):
+                if st.value is None:
+                    raise Untranslatable('bare return')
                 return self.ev(st.value)
             elif isinstance(st, ast.Raise):
                 raise Untranslatable('raise reached')
@@ -346,6 +445,7 @@ def generate(repo=None):
     src = open(os.path.join(repo, 'fxpmath', 'functions.py')).read()
     tree = ast.parse(src)
     consts = {'_n_word_max': 64}
+    funcs = {n.name: n for n in tree.body if isinstance(n, ast.FunctionDef)}
     defs, problems = [], {}
 
     def attempt(rule, f):
@@ -361,9 +461,11 @@ def generate(repo=None):
         def f(fn=fn):
             node = find_func(tree, fn)
             a = [p.arg for p in node.args.args][:2]
-            pe = PE({a[0]: ('O', 'x'), a[1]: ('O', 'y')}, consts)
-            pe.run(node.body, only=SIZE_NAMES)
-            return emit('%sSize' % fn, OPX + ' ' + OPY, pe, pe.env['optimal_size'],
+            pe = PE({a[0]: ('O', 'x'), a[1]: ('O', 'y')}, consts, funcs)
+            r = pe.run(node.body, lenient=True)
+            if r is None or r[0] != 'T':
+                raise Untranslatable('optimal_size not found')
+            return emit('%sSize' % fn, OPX + ' ' + OPY, pe, r,
                         '`optimal_size` of `functions.%s`: (signed, n_word, n_int, n_frac)' % fn)
         attempt(fn + 'Size', f)
     # optimal sizes of the accumulating one-operand functions (k = number of accumulated elements)
@@ -371,17 +473,21 @@ def generate(repo=None):
         def f(fn=fn):
             node = find_func(tree, fn)
             a = node.args.args[0].arg
-            pe = PE({a: ('O', 'x'), 'axis': C(None), 'offset': C(0), 'axis1': C(0), 'axis2': C(1)}, consts)
-            pe.run(node.body, only=SIZE_NAMES)
-            return emit('%sSize' % fn, OPX + ' (k : Int)', pe, pe.env['optimal_size'],
+            pe = PE({a: ('O', 'x'), 'axis': C(None), 'offset': C(0), 'axis1': C(0), 'axis2': C(1)}, consts, funcs)
+            r = pe.run(node.body, lenient=True)
+            if r is None or r[0] != 'T':
+                raise Untranslatable('optimal_size not found')
+            return emit('%sSize' % fn, OPX + ' (k : Int)', pe, r,
                         '`optimal_size` of `functions.%s` over `k` accumulated elements' % fn)
         attempt(fn + 'Size', f)
 
     def fdot():
         node = find_func(tree, 'dot')
-        pe = PE({'x': ('O', 'x'), 'y': ('O', 'y')}, consts)
-        pe.run(node.body, only=SIZE_NAMES)
-        return emit('dotSize', OPX + ' ' + OPY + ' (k : Int)', pe, pe.env['optimal_size'],
+        pe = PE({'x': ('O', 'x'), 'y': ('O', 'y')}, consts, funcs)
+        r = pe.run(node.body, lenient=True)
+        if r is None or r[0] != 'T':
+            raise Untranslatable('optimal_size not found')
+        return emit('dotSize', OPX + ' ' + OPY + ' (k : Int)', pe, r,
                     '`optimal_size` of `functions.dot` contracting `k` products')
     attempt('dotSize', fdot)
 
@@ -389,7 +495,7 @@ def generate(repo=None):
     def fneeds():
         node = find_func(tree, '_needs_python_int')
         a = [p.arg for p in node.args.args]
-        pe = PE({a[0]: ('O', 'x'), a[1]: ('O', 'y'), a[2]: ('I', 'F')}, consts)
+        pe = PE({a[0]: ('O', 'x'), a[1]: ('O', 'y'), a[2]: ('I', 'F')}, consts, funcs)
         r = pe.run(node.body)
         if r is None:
             raise Untranslatable('no return')
@@ -403,8 +509,8 @@ def generate(repo=None):
         if inner is None:
             raise Untranslatable('_mul_raw not found')
         a = [p.arg for p in inner.args.args]
-        pe = PE({a[0]: ('O', 'x'), a[1]: ('O', 'y'), a[2]: ('I', 'F')}, consts)
-        pe.run(inner.body, only={'n_bits', 'python_int'})
+        pe = PE({a[0]: ('O', 'x'), a[1]: ('O', 'y'), a[2]: ('I', 'F')}, consts, funcs)
+        pe.run([st for st in inner.body if isinstance(st, ast.Assign)], lenient=True)
         if 'python_int' not in pe.env:
             raise Untranslatable('python_int not assigned')
         return emit('mulNeedsPyInt', OPX + ' ' + OPY + ' (F : Int)', pe, pe.env['python_int'], '`python_int` of `functions.mul._mul_raw`')
@@ -417,7 +523,7 @@ def generate(repo=None):
             a = [p.arg for p in node.args.args]
             env = {a[0]: ('L', [('O', 'x'), ('O', 'y')]), a[1]: C(pol), a[2]: C('raw'),
                    a[3]: ('T', [('B', 'osg'), ('I', 'owd'), ('I', 'oin'), ('I', 'ofr')]) if pol == 'optimal' else C(None)}
-            pe = PE(env, consts)
+            pe = PE(env, consts, funcs)
             r = pe.run(node.body)
             if r is None:
                 raise Untranslatable('no return')
